@@ -1,6 +1,7 @@
 import PenneModel.Gen.Linkage
 import PenneModel.Gen.AddressSound
 import PenneModel.Gen.AddressTrail
+import PenneModel.Gen.StructTypes
 /-
   C03 — every successful compilation yields valid LLVM IR.  Property theorems: symbol visibility and calling
   conventions, and the well-typedness of every address computation (`generate_storage_address`: the getelementptr / load /
@@ -87,3 +88,15 @@ theorem steps_are_the_typers (ms : Members) (p : List UStep) (t : Ty) :
   elaborateG_erase ms p t
 
 end Gen.Addr
+
+namespace Gen.StructTypes
+
+/-- **the modules of a compilation do not touch each other's structure types**: with a table of types per module the
+    type objects in the shared LLVM context are exactly the modules' declarations, each with the body it was declared
+    with — whatever names the modules share and in whatever order they are compiled (F32, F33, F90 were the former
+    lookup by name) -/
+theorem every_module_keeps_its_structures (ms : List (List Decl)) :
+    compileNew [] ms = (ms.flatten).map (fun d => ({ name := d.name, body := d.body } : TyObj)) :=
+  types_are_the_declarations ms
+
+end Gen.StructTypes
